@@ -111,10 +111,12 @@ Record wf_problem (vr : vresources) (m : pmachine) (cs : list pconstr) : Prop :=
   (* vertices_resources is a dictionary of non-negative requirements; the caller's vertices are >= 0 *)
   wf_vr_nodup : NoDup (map fst vr);
   wf_vr_ids : forall v, In v (map fst vr) -> 0 <= v;
+  wf_demand_nodup : forall v d, In (v, d) vr -> NoDup (map fst d);
   wf_demand_nonneg : forall v d r q, In (v, d) vr -> In (r, q) d -> 0 <= q;
   (* subtract_resources: "res_b must be a (non-strict) subset of res_a" *)
   wf_demand_known : forall v d r q, In (v, d) vr -> In (r, q) d -> resource_known m r;
-  (* quantities of the machine are non-negative *)
+  (* chip_resource_exceptions is a dictionary; quantities of the machine are non-negative *)
+  wf_exc_nodup : NoDup (map fst (pm_exc m));
   wf_caps_nonneg : (forall r q, In (r, q) (pm_res m) -> 0 <= q)
                    /\ (forall c d r q, In (c, d) (pm_exc m) -> In (r, q) d -> 0 <= q);
   (* constraints mention only vertices of the problem and resources of the machine *)
@@ -127,24 +129,3 @@ Definition consistent (cs : list pconstr) : Prop :=
     (forall v c, In (PCLocation v c) cs -> f v = c)
     /\ (forall vs a b, In (PCSameChip vs) cs -> In a vs -> In b vs -> f a = f b).
 
-(* the premise of the property's completeness clause *)
-Definition no_same_chip (cs : list pconstr) : Prop := forall vs, ~ In (PCSameChip vs) cs.
-
-Record unit_premise (vr : vresources) (m : pmachine) (cs : list pconstr) (r0 : res) : Prop := {
-  (* every vertex needs at most one unit of the single resource r0 *)
-  up_unit : forall v d r q, In (v, d) vr -> In (r, q) d -> (r = r0 /\ (q = 0 \/ q = 1)) \/ q = 0;
-  up_no_groups : no_same_chip cs;
-  (* reservations never exceed what a working chip (or the default chip) has *)
-  up_reservations_fit : (forall r, 0 <= rget r (pm_res m) - reserved cs (-1, -1) r)
-                        /\ (forall c r, live m c = true -> 0 <= capacity m c r - reserved cs c r);
-  (* location constraints name working chips, and the constrained vertices fit on them *)
-  up_locations_live : forall v c, In (PCLocation v c) cs -> live m c = true;
-  up_locations_fit : forall c, live m c = true ->
-      fold_right Z.add 0 (map (fun k => match k with
-                                        | PCLocation v c' => if chip_eqb c c' then demand vr v r0 else 0
-                                        | _ => 0 end) cs)
-      <= capacity m c r0 - reserved cs c r0;
-  up_locations_once : forall v c c', In (PCLocation v c) cs -> In (PCLocation v c') cs -> c = c';
-  (* the total free capacity suffices *)
-  up_total : fold_right Z.add 0 (map (fun vd => rget r0 (snd vd)) vr)
-             <= fold_right Z.add 0 (map (fun c => capacity m c r0 - reserved cs c r0) (raster m)) }.
